@@ -34,7 +34,8 @@
   And `iter_eq_spec_minutely_byhour_byminute_partial`: MINUTELY with BYMINUTE and optional BYHOUR (in particular both
   together) under `reachableMM`.
   And `iter_eq_spec_byeaster_below_yearly_partial`: BYEASTER (−80..250, 1583..4099) under DAILY and every sub-daily family.
-  Missing: BYEASTER under WEEKLY and MONTHLY (BYWEEKNO is covered under every frequency), BYEASTER together with BYWEEKNO, nth BYDAY with plain BYDAY (all of it inside D-C01a), BYWEEKNO with BYEASTER or
+  And `iter_eq_spec_monthly_easter_partial` / `iter_eq_spec_weekly_easter_partial` (WEEKLY: offsets −74..250, the exact class).
+  Missing: BYEASTER together with BYWEEKNO, nth BYDAY with plain BYDAY (all of it inside D-C01a), BYWEEKNO with BYEASTER or
   nth BYDAY.  Everything else below — including
   `iter_strictMono` for all seven frequencies — is proved for ALL rules / all argument sets, with no
   `Supported` hypothesis (so also inside the known-defect classes).
@@ -61,6 +62,8 @@ import DateutilVerif.Proofs.RRuleMinutelyBH
 import DateutilVerif.Proofs.RRuleSecondlyBS
 import DateutilVerif.Proofs.RRuleMinutelyBHM
 import DateutilVerif.Proofs.RRuleWeeklyW
+import DateutilVerif.Proofs.RRuleInterleave
+import DateutilVerif.Proofs.RRuleConstructSetIter
 
 namespace C01
 open RRule Cal RRule.Tables
@@ -217,6 +220,31 @@ example : (do let r ← construct { freq := 3, dtstart := ⟨2000, 1, 1, 0, 0, 0
               let r' ← construct (origArgs { freq := 3, dtstart := ⟨2000, 1, 1, 0, 0, 0, 0⟩, bysetpos := some [] } r)
               pure (r.bysetpos, r'.bysetpos)) = .ok (some [], none) := by decide +kernel
 
+/-- **the constructed rule depends only on the SET of members of each BY list** — `set(bymonth)`, `set(byhour)`, … in
+    `__init__`: repeated members, any order, any container spelling of BYMONTH / BYMONTHDAY / BYYEARDAY / BYWEEKNO / BYDAY /
+    BYHOUR / BYMINUTE / BYSECOND give the SAME rule object state (normalised tuples, positive / negative month-day split,
+    plain / nth weekday split, reachability filter of the own unit, time set) or the same ValueError — for every frequency.
+    BYSETPOS is kept as given (`tuple(bysetpos)`: equal here) and BYEASTER as `tuple(sorted(byeaster))` (equal up to order
+    here; with repetitions the rule differs in that field only and iterates identically: `byeaster_repetitions_invisible`).
+    The harness feeds repeated / unsorted members for every BY part x every frequency to constructor and iteration. -/
+theorem construct_perm_dup_invariant (a a' : Args) (h : SetEquiv a a') : construct a = construct a' :=
+  RRule.construct_perm_dup_invariant a a' h
+
+/-- … and repeated BYEASTER members change nothing that is iterated: same values, same terminal status, all fuels -/
+theorem byeaster_repetitions_invisible (a : Args) (el el' : List Int) (ha : a.byeaster = some el)
+    (hm : ∀ x, x ∈ el ↔ x ∈ el') (r r' : Rule) (h : construct a = .ok r)
+    (h' : construct { a with byeaster := some el' } = .ok r') (n : Nat) : iter r' n = iter r n :=
+  construct_easter_dup_iter a el el' ha hm r r' h h' n
+
+-- BYHOUR 20,8,20 / BYSECOND 5,5 against 8,20 / 5: the same rule
+example : SetEquiv { freq := 3, dtstart := ⟨2024, 2, 28, 9, 30, 0, 0⟩, byhour := some [20, 8, 20], bysecond := some [5, 5] }
+                   { freq := 3, dtstart := ⟨2024, 2, 28, 9, 30, 0, 0⟩, byhour := some [8, 20], bysecond := some [5] } :=
+  { freq := rfl, dtstart := rfl, tz := rfl, interval := rfl, wkst := rfl, count := rfl, untilDT := rfl, bysetpos := rfl,
+    byeaster := Or.inl ⟨rfl, rfl⟩, bymonth := Or.inl ⟨rfl, rfl⟩, bymonthday := Or.inl ⟨rfl, rfl⟩,
+    byyearday := Or.inl ⟨rfl, rfl⟩, byweekno := Or.inl ⟨rfl, rfl⟩, byweekday := Or.inl ⟨rfl, rfl⟩,
+    byhour := Or.inr ⟨_, _, rfl, rfl, by intro x; simp; omega⟩, byminute := Or.inl ⟨rfl, rfl⟩,
+    bysecond := Or.inr ⟨_, _, rfl, rfl, by intro x; simp⟩ }
+
 /-- **the ambient first weekday is an input only when `wkst` is not supplied.**  `constructW k a` is
     `rrule.__init__` while `calendar.firstweekday()` is `k` (process-wide, `calendar.setfirstweekday`);
     `construct` is the case `k = 0`, the interpreter's default.  With an explicit `wkst` — including `wkst=MO`
@@ -305,6 +333,39 @@ theorem iter_whole_seconds (r : Rule) (n : Nat) : ∀ t ∈ (iterDT r n).1, t.us
   simp only [List.mem_map] at ht
   obtain ⟨x, _, rfl⟩ := ht
   rfl
+
+/-! ### 3b. one rule object, several live iterators -/
+
+/-- **interleaved iterators of one rule object do not interfere.**  The object is the immutable normalised `Rule` plus the one
+    attribute an iteration writes, `_len` (`Obj`); every live iterator has its own generator state (`IterSlot`: `State`, what it
+    has yielded, how it ended); an event creates an iterator in a slot (`iter(obj)`) or runs one turn of a slot's `while True`
+    loop.  For EVERY event list — any interleaving of any number of iterators, which also covers `between` / `after` /
+    `count` / indexing running in between, each being a fresh iterator advanced some turns —
+    (i) the rule is never changed, (ii) what slot `j` holds after the history is what it holds after ITS OWN events alone, and
+    (iii) an iterator created and advanced `n` turns holds exactly `(iter rule n).1`, the sequence a fresh iterator over a
+    fresh object sees: the iteration state is a function of the rule and of the number of turns of THAT iterator.  (`init` and
+    `step` take the `Rule`, not the `Obj`: `_len` is never read.  The tie to the code is the shared-state audit of
+    `rrule._iter` / `_iterinfo` — the only attribute of the rule object they write is `_len`, `_iterinfo` is a local — and the
+    interleaved-history stream of the harness.) -/
+theorem interleaved_iterators_independent (o : Obj) (m : Slots) (es : List Ev) (j : Nat) :
+    (exec o m es).1.rule = o.rule ∧
+    (exec o m es).2 j = (exec o m (es.filter (fun e => e.slot == j))).2 j ∧
+    (∀ (n : Nat) (pre : List Ev) (st0 : State), init o.rule = .ok st0 →
+      es.filter (fun e => e.slot == j) = pre ++ Ev.create j :: List.replicate n (Ev.turn j) →
+      ∃ s, (exec o m es).2 j = some s ∧ s.out = (iter o.rule n).1) :=
+  ⟨interleave_rule_const o m es, interleave_noninterference o m es j,
+   fun n pre st0 hinit hes => by
+     obtain ⟨s, h1, _, h3⟩ := interleave_eq_run o m es j n pre st0 hinit hes
+     exact ⟨s, h1, h3⟩⟩
+
+-- two iterators over one DAILY rule (COUNT=3), interleaved, slot 0 re-created at the end; the turn that meets COUNT writes `_len`
+example : (match construct { freq := 3, dtstart := ⟨2024, 2, 28, 9, 0, 0, 0⟩, count := some 3 } with
+    | .ok r =>
+      let p := exec { rule := r, len := none } (fun _ => none)
+        [.create 0, .turn 0, .create 1, .turn 0, .turn 1, .turn 1, .turn 0, .turn 1, .turn 1, .create 0, .turn 0]
+      (slotDates p 0, slotDates p 1, p.1.len)
+    | .error _ => ([], [], none)) =
+    ([(2024, 2, 28)], [(2024, 2, 28), (2024, 2, 29), (2024, 3, 1)], some 3) := by decide +kernel
 
 /-! ### 4. periods: day sets and the advance of the calendar frequencies -/
 
@@ -573,7 +634,7 @@ theorem orbit_period_window (interval base : Int) (hb : 0 < base) (k j : Nat) :
     multi-pass loop never exhausts its bound and `n` turns correspond to `m` periods, `n ≤ m ≤ 2880·n`.
     ON THE COMPLEMENT (`¬ reachableHourM a`) the recurrence set is EMPTY and the generator does not stop but raises
     `ValueError("Invalid combination of interval and byhour resulting in empty rule.")` at the first `next()`:
-    known finding D-C01g (`rrule(MINUTELY, interval=120, byhour=[1], dtstart=datetime(2024,1,1,0,0))`); the model
+    which the property allows ("raises ValueError when first iterated"; former finding D-C01g, withdrawn) (`rrule(MINUTELY, interval=120, byhour=[1], dtstart=datetime(2024,1,1,0,0))`); the model
     reproduces it (`minutelyLoop` returns the same ValueError). -/
 theorem iter_eq_spec_minutely_byhour_partial (a : Args) (r : Rule) (ma : MinutelyBHArgs a) (h : construct a = .ok r)
     (n : Nat)
@@ -620,6 +681,35 @@ theorem iter_eq_spec_secondly_bysecond_partial (a : Args) (r : Rule) (sa : Secon
       (172800 * n + 86400) * a.interval + 86399 < (maxOrdinal + 1) * 86400) :
     ∃ m, n ≤ m ∧ m ≤ 172800 * n ∧ (iter r n).1 = Spec.RRule.occ a m :=
   iter_eq_spec_secondly_bysecond sa h n hle
+
+/-- **INTERVAL must be a positive integer** (fix D-C01-interval): `rrule.__init__` raises ValueError for `interval < 1`
+    whatever the other arguments are, so every constructed rule has `interval ≥ 1` — the hypothesis `1 ≤ a.interval` of the
+    theorems above is implied by `construct a = .ok r`.  (Before the fix `interval=0` yielded the start for ever — duplicates,
+    `list(rule)` with UNTIL never returned — and `interval < 0` yielded the start and then raised from `date.fromordinal`.) -/
+theorem construct_interval_positive (a : Args) :
+    (a.interval < 1 → construct a = .error .ValueError) ∧ (∀ r, construct a = .ok r → 1 ≤ a.interval) :=
+  ⟨construct_interval_ValueError a, fun r h => construct_interval_pos a r h⟩
+
+example : construct { freq := 3, dtstart := ⟨2024, 1, 1, 9, 0, 0, 0⟩, interval := 0 } = .error .ValueError := by decide +kernel
+example : construct { freq := 0, dtstart := ⟨2024, 1, 1, 9, 0, 0, 0⟩, interval := -1, count := some 3 } = .error .ValueError := by
+  decide +kernel
+
+/-- **`iter_eq_spec`, proved portion, MONTHLY with BYEASTER** (−80..250, plain BYDAY only, no BYWEEKNO, months inside 1583..4099) -/
+theorem iter_eq_spec_monthly_easter_partial (a : Args) (r : Rule) (ea : EasterMArgs a) (h : construct a = .ok r) (n : Nat)
+    (hlo : 1583 ≤ a.dtstart.y) (hm : (a.dtstart.y * 12 + (a.dtstart.m - 1) + n * a.interval) / 12 ≤ 4099) :
+    (iter r n).1 = Spec.RRule.occ a n :=
+  iter_eq_spec_monthly_easter ea h n hlo hm
+
+/-- **`iter_eq_spec`, proved portion, WEEKLY with BYEASTER** on the EXACT class −74..250: a week begun in late December reads the
+    7-day tail of the Easter mask of the OLD year, which is never marked for offsets ≤ 250 (`easter_yday_range`: Easter falls on
+    22 March .. 25 April), while the specification accepts Jan 1..6 of the new year exactly for offsets −115..−75 of the NEW
+    year's Easter — so the model is right precisely when no offset below −74 is listed (offsets −80..−75 under WEEKLY are part
+    of D-C01d: e.g. `rrule(WEEKLY, wkst=WE, dtstart=1817-12-31, byeaster=-75)` misses 1818-01-06).  No BYWEEKNO, BYSETPOS only with
+    the start on the week start, UNTIL not before the start, every week inside 1583..4099. -/
+theorem iter_eq_spec_weekly_easter_partial (a : Args) (r : Rule) (wa : WeeklyEArgs a) (h : construct a = .ok r) (n : Nat)
+    (hlo : 1583 ≤ a.dtstart.y) (hn : W0 a + 7 * (n * a.interval) + 7 ≤ Cal.toOrdinal 4099 12 31 + 1) :
+    (iter r n).1 = Spec.RRule.occ a n :=
+  iter_eq_spec_weekly_easter wa h n hlo hn
 
 /-- **`iter_eq_spec`, proved portion, BYEASTER below YEARLY**: DAILY, HOURLY (with or without BYHOUR), MINUTELY (plain, BYMINUTE,
     BYHOUR, both) and SECONDLY (plain, BYHOUR / BYMINUTE, BYSECOND) with BYEASTER offsets −80..250 (the complement of D-C01d),
@@ -789,6 +879,12 @@ example : SecondlyBSArgs { freq := 6, dtstart := dt 2024 1 1 9, interval := 7, b
 example : WeeknoMArgs { freq := 1, dtstart := dt 2024 1 1 9, byweekno := some [10, 20], byweekday := some [(0, 0)] } :=
   ⟨rfl, by decide, by decide, by decide, by intro x hx; simp at hx, rfl, by decide,
    ⟨[10, 20], rfl, by decide, ⟨by decide, by decide⟩⟩⟩
+-- EasterMArgs / WeeklyEArgs instances
+example : EasterMArgs { freq := 1, dtstart := dt 2024 1 1 9, byeaster := some [-2, 1] } :=
+  ⟨rfl, by decide, by decide, rfl, by intro x hx; simp at hx, by intro w hw; simp at hw, ⟨[-2, 1], rfl, by decide, by decide⟩⟩
+example : WeeklyEArgs { freq := 2, dtstart := dt 2024 12 30 9, byeaster := some [-74, -46, 1, 250] } :=
+  ⟨rfl, by decide, by decide, rfl, by intro x hx; simp at hx, ⟨[-74, -46, 1, 250], rfl, by decide, by decide⟩,
+   Or.inl rfl, by decide, by intro u hu; simp at hu⟩
 -- a DailyEArgs instance: Good Friday and Easter Monday, scanned day by day; and the classifier on sub-daily BYEASTER rules
 example : DailyEArgs { freq := 3, dtstart := dt 2024 1 1 10, byeaster := some [-2, 1] } :=
   ⟨rfl, by decide, by decide, rfl, by intro x hx; simp at hx, ⟨[-2, 1], rfl, by decide, by decide⟩⟩
@@ -815,7 +911,7 @@ example : family { freq := 0, dtstart := dt 1997 5 12 9, byweekno := some [20], 
     = some .yearlyWeekno := by decide +kernel
 example : family { freq := 1, dtstart := dt 2020 1 1 9, byweekday := some [(0, 0), (1, 1)] } = none := by decide +kernel
 example : family { freq := 5, dtstart := dt 2020 1 1 9, byhour := some [9] } = some .minutelyByhour := by decide +kernel
--- D-C01g: MINUTELY every 120 minutes from 00:00 never meets hour 1: not supported, and the model raises ValueError
+-- former D-C01g (withdrawn, allowed by the property): MINUTELY every 120 minutes from 00:00 never meets hour 1: not supported, and the model raises ValueError
 example : family { freq := 5, interval := 120, dtstart := dt 2024 1 1, byhour := some [1] } = none := by decide +kernel
 example : (match construct { freq := 5, interval := 120, dtstart := dt 2024 1 1, byhour := some [1] } with
            | .ok r => (iter r 1).2 | .error e => .error e) = .error .ValueError := by decide +kernel
